@@ -643,7 +643,8 @@ where
     let w = hashbrown::verif::GROUP_WIDTH;
     let (es, _) = hashbrown::verif::table_layout::<(K, V)>();
     let ea = std::mem::align_of::<(K, V)>();
-    tr.reset("map", name, w, es, ea, std::mem::needs_drop::<(K, V)>(), K::TRACKED, nt, "lawful", seed);
+    let faulty = b["ops"].as_array().map_or(false, |a| a.iter().any(|o| o.get("pa").is_some()));
+    tr.reset("map", name, w, es, ea, std::mem::needs_drop::<(K, V)>(), K::TRACKED, nt, if faulty { "fault" } else { "lawful" }, seed);
     let mut drv: MapDrv<K, V> = MapDrv::new(nt, w);
     for t in 1..=nt {
         let mut ev = Event::new("new", t);
@@ -651,9 +652,10 @@ where
         drv.exec(ev, tr);
     }
     for o in b["ops"].as_array().unwrap() {
-        let ev = ev_from_json(o);
+        let mut ev = ev_from_json(o);
         if let Some(pa) = o.get("pa").and_then(|x| x.as_u64()) {
-            env::with(|e| e.panic_hash_at = pa as u32);
+            ev.fa = "hash".to_string();
+            ev.fk = pa as i64;
         }
         drv.exec(ev, tr);
     }
